@@ -56,6 +56,7 @@ func (round *round4) Start() *tss.Error {
 	dlnProof1FailCulprits := make([]*tss.PartyID, len(round.temp.dgRound2Message1s))
 	dlnProof2FailCulprits := make([]*tss.PartyID, len(round.temp.dgRound2Message1s))
 	wg := new(sync.WaitGroup)
+	duplicateH1H2 := false
 	for j, msg := range round.temp.dgRound2Message1s {
 		r2msg1 := msg.Content().(*DGRound2Message1)
 		paiPK, NTildej, H1j, H2j := r2msg1.UnmarshalPaillierPK(),
@@ -65,12 +66,14 @@ func (round *round4) Start() *tss.Error {
 		if H1j.Cmp(H2j) == 0 {
 			return round.WrapError(errors.New("h1j and h2j were equal for this party"), msg.GetFrom())
 		}
+		// uniqueness of h1j, h2j is judged after the proofs below: a party that copied another party's
+		// value fails its own proof and is named there; a bare duplicate cannot be attributed
 		h1JHex, h2JHex := hex.EncodeToString(H1j.Bytes()), hex.EncodeToString(H2j.Bytes())
 		if _, found := h1H2Map[h1JHex]; found {
-			return round.WrapError(errors.New("this h1j was already used by another party"), msg.GetFrom())
+			duplicateH1H2 = true
 		}
 		if _, found := h1H2Map[h2JHex]; found {
-			return round.WrapError(errors.New("this h2j was already used by another party"), msg.GetFrom())
+			duplicateH1H2 = true
 		}
 		h1H2Map[h1JHex], h1H2Map[h2JHex] = struct{}{}, struct{}{}
 		wg.Add(3)
@@ -112,6 +115,9 @@ func (round *round4) Start() *tss.Error {
 		if culprit != nil {
 			return round.WrapError(errors.New("dln proof verification failed"), culprit)
 		}
+	}
+	if duplicateH1H2 {
+		return round.WrapError(errors.New("an h1j or h2j was used by more than one party"))
 	}
 	// save NTilde_j, h1_j, h2_j received in NewCommitteeStep1 here
 	for j, msg := range round.temp.dgRound2Message1s {
